@@ -107,3 +107,66 @@ let rec permutations (l : 'a list) : 'a list list =
       List.concat (List.mapi (fun i x ->
         let rest = List.filteri (fun j _ -> j <> i) l in
         List.map (fun p -> x :: p) (permutations rest)) l)
+
+(* ---- values ---- *)
+let rec val_of_sexp (s : Sexp.t) : value =
+  match s with
+  | A "void" -> VVoid
+  | L [A "i"; A n] -> VInt (z_of_string n)
+  | L [A "f"; A "nan"] -> VFloat cANON_NAN
+  | L [A "f"; A n] -> VFloat (z_of_string n)
+  | L [A "b"; A b] -> VBool (b = "true")
+  | L [A "s"; S str] -> VString (ident_of_string str)
+  | L (A "arr" :: vs) -> arr_of (List.map val_of_sexp vs)
+  | L (A "arrt" :: t :: vs) -> VArr (ty_of_sexp t, List.map val_of_sexp vs)
+  | L (A "tup" :: vs) -> VTup (List.map val_of_sexp vs)
+  | L (A "struct" :: fs) ->
+      let add acc (k, v) = List.filter (fun (k', _) -> not (ident_eqb k k')) acc @ [(k, v)] in
+      VStruct (List.fold_left add []
+        (List.map (function
+           | L [A k; v] -> (ident_of_string k, val_of_sexp v)
+           | _ -> raise (Bad "struct field")) fs))
+  | _ -> raise (Bad "value")
+
+let rec val_to_string (types : bool) (v : value) : string =
+  let sub = val_to_string types in
+  match v with
+  | VBool b -> "(b " ^ bool_to_string b ^ ")"
+  | VInt z -> "(i " ^ string_of_z z ^ ")"
+  | VFloat f -> if f_is_nan f then "(f nan)" else "(f " ^ string_of_z f ^ ")"
+  | VString s -> "(s " ^ Sexp.quote (string_of_ident s) ^ ")"
+  | VFun (id, ps, r) ->
+      if types then "(fun " ^ string_of_int (int_of_nat id) ^ " " ^ ty_to_string (TFun (ps, r)) ^ ")"
+      else "(fun " ^ string_of_int (int_of_nat id) ^ ")"
+  | VArr (et, vs) ->
+      let e = String.concat "" (List.map (fun x -> " " ^ sub x) vs) in
+      if types then "(arr " ^ ty_to_string et ^ e ^ ")" else "(arr" ^ e ^ ")"
+  | VTup vs -> "(tup" ^ String.concat "" (List.map (fun x -> " " ^ sub x) vs) ^ ")"
+  | VMut (loc, t) ->
+      if types then "(mut " ^ string_of_int (int_of_nat loc) ^ " " ^ ty_to_string t ^ ")"
+      else "(mut " ^ string_of_int (int_of_nat loc) ^ ")"
+  | VStruct fs ->
+      let l = List.sort compare (List.map (fun (k, x) -> (string_of_ident k, sub x)) fs) in
+      "(struct" ^ String.concat "" (List.map (fun (k, x) -> " (" ^ k ^ " " ^ x ^ ")") l) ^ ")"
+  | VVoid -> "void"
+
+let err_name (e : z) : string =
+  match int_of_z e with
+  | 0 -> "IndexOutOfBounds" | 1 -> "NegativeLength" | 2 -> "NegativeExponent"
+  | 3 -> "ZeroDivision" | 4 -> "ZeroModulo" | 5 -> "OverflowShift" | n -> "E" ^ string_of_int n
+
+let outcome_to_string (types : bool) (o : value outcome) : string =
+  match o with
+  | Ok v -> "ok " ^ val_to_string types v
+  | Err e -> "err " ^ err_name e
+  | Panic -> "!panic"
+  | OutOfFuel -> "!fuel"
+
+let binop_of_string = function
+  | "add" -> Add | "sub" -> Subtract | "mul" -> Multiply | "div" -> Divide | "mod" -> Modulo
+  | "pow" -> Pow | "eq" -> Equal | "ne" -> NotEqual | "gt" -> Greater | "ge" -> GreaterOrEqual
+  | "lt" -> Lower | "le" -> LowerOrEqual | "band" -> BitwiseAnd | "bor" -> BitwiseOr
+  | "xor" -> Xor | "shl" -> LShift | "shr" -> RShift | "and" -> And | "or" -> Or
+  | s -> raise (Bad ("binop " ^ s))
+let unop_of_string = function
+  | "not" -> UNot | "neg" -> UUnaryMinus | s -> raise (Bad ("unop " ^ s))
